@@ -238,6 +238,7 @@ var optionReductions = []func(*Scenario) bool{
 	func(c *Scenario) bool { ok := c.Options.Fallback; c.Options.Fallback = false; return ok },
 	func(c *Scenario) bool { ok := c.Options.EncodedPath; c.Options.EncodedPath = false; return ok },
 	func(c *Scenario) bool { ok := c.Options.Wrapped; c.Options.Wrapped = false; return ok },
+	func(c *Scenario) bool { ok := c.Options.Intercept != ""; c.Options.Intercept = ""; return ok },
 	func(c *Scenario) bool {
 		ok := c.Options.Caching
 		c.Options.Caching, c.Options.Capacity = false, 0
